@@ -37,6 +37,12 @@ def load_known():
 def worker_main(args):
     mod = importlib.import_module('vm.' + args.id.lower())
     shard = json.load(open(args.shard_file))
+    try:
+        import resource
+        lim = int(os.environ.get('VERIF_WORKER_MEM_GB', '6')) * 1024 ** 3
+        resource.setrlimit(resource.RLIMIT_AS, (lim, lim))
+    except Exception:  # noqa: B902
+        pass
     t0 = time.monotonic()
     try:
         common.setup_repo()
